@@ -24,6 +24,7 @@ ASSUMPTIONS = []
 
 
 def run(F, R, tier):
+    _round6(F, R)
     # ---------------- C19-a ------------------------------------------------
     resets = []
     for n in F.all_nodes():
@@ -190,3 +191,33 @@ def run(F, R, tier):
              "reload loads with is_root = %s: without referrer and attribute only a root is accepted for attribute-dependent media types (a reloaded JSON dependency would become an error entry)" % expr_text(f["is_root"]), where(l))
     aw = [n for n in rl["_nodes"] if callee_matches(n, ["Builder::resolve_pending"])]
     R.ob("C19-c", "reload drains the loads it queued", len(aw) == 1, "reload does not await resolve_pending", rl["file"])
+
+
+def _round6(F, R):
+    # C19-r: when a restart is not allowed, stale registry metadata is refreshed
+    # once *per package*: the memo that stops a second refresh is a set keyed by
+    # the package name and lives across the whole drain loop
+    rp = F.body("graph::Builder::resolve_pending_jsr_specifiers")
+    memo = [n for n in rp["_nodes"] if n.get("k") == "MethodCall" and n["name"] in ("insert", "contains") and peel(n["recv"]).get("res") == "local"
+            and tyc(F, n["recv"], "HashSet<deno_semver::StackString") and any(c.get("k") == "If" and is_within(n, c["cond"]) for c in k_ancestors(n))]
+    loads = [n for n in rp["_nodes"] if callee_matches(n, ["JsrMetadataStore::queue_load_package_info", "queue_load_package_info"])]
+    forced = []
+    for n in loads:
+        if any(ctor_of(peel(y)) == "source::CacheSetting::Reload" or (y.get("k") == "Path" and str(y.get("path", "")).endswith("CacheSetting::Reload")) for y in walk(n)):
+            forced.append(n)
+    if not forced:
+        R.note("C19-r: no forced metadata reload found in resolve_pending_jsr_specifiers (rule not applicable)")
+        return
+    for n in forced:
+        g = guards_at(F, n)
+        per_pkg = [x for x in g if x.kind == "cond" and x.pol and x.node.get("k") == "MethodCall" and x.node["name"] == "insert" and tyc(F, x.node["recv"], "HashSet<")]
+        ok = bool(per_pkg)
+        outside = False
+        if per_pkg:
+            lid = peel(per_pkg[0].node["recv"]).get("lid")
+            defs = [d for d in local_defs(rp, lid) if d[0] in ("let", "letpat", "let_uninit")]
+            lps = [a for a in k_ancestors(n) if a.get("k") in ("While", "Loop", "For")]
+            outside = bool(defs) and bool(lps) and all(not is_within(d[3], lps[-1]) for d in defs)
+        R.ob("C19-r", "a forced metadata refresh is memoised per package across the whole drain loop", ok and outside,
+             "the forced `meta.json` reload in NoRestart mode is not guarded by a per-package set that outlives the loop (%s): either only the first stale package of a pass is refreshed (the others become not-found errors a from-scratch build does not have) or an unsatisfiable requirement is reloaded forever" % ("no set-insert guard" if not ok else "the set is created inside the loop"),
+             where(n), key="C19|C19-r|forced-refresh-memo")
